@@ -199,7 +199,10 @@ def enumerate_pool(tier, wd):
     r = core.run_tlc("Gen_ValueOrder", c, os.path.join(wd, "gen"), workers=1)
     if not r.ok:
         raise core.ToolError("Gen_ValueOrder: %s" % r.status)
-    pool = sorted(r.tagged["VAL"], key=sort_key)
+    core_keys = {core.canon(x["val"]) for x in r.tagged["VAL"] if x["core"]}
+    pool = sorted((x["val"] for x in r.tagged["VAL"]), key=sort_key)
+    for v in pool:
+        IN_CORE[core.canon(v)] = core.canon(v) in core_keys
     labels = [label(v) for v in pool]
     if len(set(labels)) != len(labels):
         dup = [l for l, n in collections.Counter(labels).items() if n > 1]
@@ -218,22 +221,13 @@ def observe(pool, ops, wd, tag="obs"):
     return res
 
 
+IN_CORE = {}
+
+
 def in_triples(v, tier):
-    """quick: the triple laws run over the pool without the records that only put a boundary text into a position
-    (attribute name / slot key / item); all PAIRS are always evaluated"""
-    if tier != "quick" or v["k"] != "record":
-        return 1
-    def text_only(r):
-        if len(r["attrs"]) == 1 and not r["items"] and r["attrs"][0]["value"]["k"] == "extant" and r["attrs"][0]["name"] not in ([3], [4]):
-            return True
-        if not r["attrs"] and len(r["items"]) == 1:
-            it = r["items"][0]
-            if it["slot"] and it["key"]["k"] == "text":
-                return True
-            if not it["slot"] and it["value"]["k"] == "text":
-                return True
-        return False
-    return 0 if text_only(v) else 1
+    """quick: the triple laws range over ValueOrder!CorePool (the pool without the records that only put a boundary text or
+    an item / attribute structure into a position); all PAIRS are always evaluated"""
+    return 1 if tier != "quick" or IN_CORE.get(core.canon(v), True) else 0
 
 
 def table_of(pool, res, tier="thorough"):
